@@ -195,6 +195,56 @@ def job_binary(job):
     return compare(fn, dtype, [x, y], ref, got)
 
 
+FLOAT_SCALARS = [0.5, 2.0, -1.0, 0.0, 1.0, 3, 2, -2, 0.25, -0.5, 1.5, 10]
+INT_SCALARS = [0, 1, 2, 3, 7, -1, -3]
+SCALAR_FNS = ["add", "subtract", "multiply", "divide", "floor_divide", "remainder", "pow", "atan2", "logaddexp",
+              "equal", "not_equal", "less", "less_equal", "greater", "greater_equal",
+              "bitwise_and", "bitwise_or", "bitwise_xor", "bitwise_left_shift", "bitwise_right_shift"]
+
+
+def job_scalar(job):
+    """A Python scalar as one operand (either side): same value as with a same-dtype array operand (C02) — special
+    cases of the scalar must not take a different mathematical route (x ** 0.5, x * 1, x + 0, 2 ** x ...)."""
+    fn, dtype, sc, left, lazy = job
+    ndx = impl.ndx
+    isint = dtype in impl.INTS
+    x = int_values(dtype, exhaustive8=False) if isint else float_values(dtype)
+    if isint and dtype.startswith("u") and sc < 0:
+        return {"n": 0}
+    if fn in ("floor_divide", "remainder", "divide") and not left and sc == 0 and isint:
+        return {"n": 0}
+    if fn in ("floor_divide", "remainder", "divide") and left and isint:
+        x = x[x != 0]
+    if fn in ("bitwise_left_shift", "bitwise_right_shift"):
+        if left:
+            x = x[(x >= 0) & (x < np.dtype(dtype).itemsize * 8)]
+        elif not (0 <= sc < np.dtype(dtype).itemsize * 8):
+            return {"n": 0}
+    if fn == "pow" and isint:
+        if left:
+            x = x[(x >= 0) & (x <= 16)]
+        elif sc < 0:
+            return {"n": 0}
+    if not isinstance(sc, int) and isint:
+        return {"n": 0}
+    # a full array operand: NumPy itself special-cases scalar exponents (x ** 0.5 -> sqrt), the oracle must not
+    s_arr = np.full(x.shape, sc).astype(dtype)
+    with np.errstate(all="ignore"), warnings.catch_warnings():
+        warnings.simplefilter("ignore")
+        ref = NP_BINARY[fn](s_arr, x) if left else NP_BINARY[fn](x, s_arr)
+    try:
+        if lazy:
+            a = ndx.array(shape=("N",), dtype=impl.dt(dtype))
+            out = getattr(ndx, fn)(sc, a) if left else getattr(ndx, fn)(a, sc)
+            got = impl.run_model(ndx.build({"a": a}, {"o": out}), {"a": x}, {"o": out})["o"]
+        else:
+            a = ndx.asarray(x)
+            got = (getattr(ndx, fn)(sc, a) if left else getattr(ndx, fn)(a, sc)).to_numpy()
+    except Exception as e:
+        return {"error": f"{type(e).__name__}: {str(e)[:200]}"}
+    return compare(fn, dtype, [x, s_arr] if not left else [s_arr, x], ref, got)
+
+
 MODEL_OPS = ["add", "subtract", "multiply", "remainder", "bitwise_left_shift", "bitwise_right_shift"]
 
 
@@ -393,9 +443,45 @@ def run(ctx: common.Ctx):
                 k += 1
                 if not quick or (k + ctx.seed) % 3 == 0:
                     jobs.append(("b", fn, d, True))
-    res = tables.pmap(_dispatch, jobs, chunk=8)
-    elements = 0
     swept_bad = set()
+    # Python-scalar operands (rotating sample in quick)
+    sj = []
+    for fn in SCALAR_FNS:
+        for d in impl.INTS + impl.FLOATS:
+            if not domain(fn, d):
+                continue
+            for sc in (INT_SCALARS if d in impl.INTS else FLOAT_SCALARS):
+                for left in (False, True):
+                    sj.append(("s", fn, d, sc, left, False))
+    if quick:
+        sj = [j for i, j in enumerate(sj) if (i + ctx.seed) % 4 == 0 or (j[1] == "pow" and not j[4])]
+        sj += [("s", fn, d, sc, left, True) for (_, fn, d, sc, left, _) in sj[:: 9]]
+    else:
+        sj += [("s", fn, d, sc, left, True) for (_, fn, d, sc, left, _) in sj]
+    njobs = len(jobs)
+    jobs = jobs + sj
+    res = tables.pmap(_dispatch, jobs, chunk=8)
+    sres = res[njobs:]
+    jobs, res = jobs[:njobs], res[:njobs]
+    for job, r in tables.pairs(ctx, sj, sres):
+        _, fn, d, sc, left, lazy = job
+        mode = "traced" if lazy else "eager"
+        if isinstance(r, tables.Crashed):
+            ctx.violation(f"{fn}/{d}/scalar-operand/interpreter-crash", f"{fn}({d}, scalar {sc!r}) {mode}: worker died", {"job": repr(job)})
+            continue
+        if not r.get("n") and "error" not in r and "bad" not in r:
+            continue
+        ctx.case((fn, d, "scalar", repr(sc), left, mode), True)
+        ctx.count("mode:scalar-operand")
+        form = f"{fn}({sc!r}, {d})" if left else f"{fn}({d}, {sc!r})"
+        if "error" in r:
+            ctx.violation(f"{fn}/{d}/scalar-operand/raises", f"{form} ({mode}) raised {r['error']}", {"function": fn, "dtype": d, "scalar": repr(sc), "left": left, "mode": mode, "error": r["error"]})
+        elif "bad" in r:
+            swept_bad.add((fn, d))
+            ctx.violation(f"{fn}/{d}/{r.get('region', r['bad'])}",
+                          f"{form} ({mode}): {r['bad']} differ from the same operation with an array operand in NumPy; e.g. {r.get('examples', r)}"[:600],
+                          {"function": fn, "dtype": d, "scalar": repr(sc), "left": left, "mode": mode, **r})
+    elements = 0
     for (kind, fn, d, lazy), r in tables.pairs(ctx, jobs, res):
         mode = "traced" if lazy else "eager"
         ctx.case((fn, d, mode), True, {"function": fn, "dtype": d, "mode": mode, "elements": r.get("n")} if len(ctx.samples) < 6 else None)
@@ -424,4 +510,6 @@ def run(ctx: common.Ctx):
 
 
 def _dispatch(job):
+    if job[0] == "s":
+        return job_scalar(job[1:])
     return job_unary(job[1:]) if job[0] == "u" else job_binary(job[1:])
